@@ -20,6 +20,7 @@ import (
 	"errors"
 	"fmt"
 	"io"
+	"math"
 	"strconv"
 	"time"
 
@@ -496,6 +497,18 @@ func generateProtectedHeaders(req *signature.SignRequest, protected cose.Protect
 			// other types cannot be represented as a COSE label; unhashable
 			// ones (slices, maps) would even panic when used as a map key
 			return &signature.InvalidSignRequestError{Msg: fmt.Sprintf("extended attribute key of type %T is not supported, COSE header labels are text strings or integers", elm.Key)}
+		}
+		// an integer label above the int64 range can be written but not read
+		// back: the envelope would not parse
+		switch k := elm.Key.(type) {
+		case uint:
+			if uint64(k) > math.MaxInt64 {
+				return &signature.InvalidSignRequestError{Msg: fmt.Sprintf("extended attribute key %d is out of range, COSE integer header labels must fit in int64", k)}
+			}
+		case uint64:
+			if k > math.MaxInt64 {
+				return &signature.InvalidSignRequestError{Msg: fmt.Sprintf("extended attribute key %d is out of range, COSE integer header labels must fit in int64", k)}
+			}
 		}
 		if _, ok := protected[elm.Key]; ok {
 			return &signature.InvalidSignRequestError{Msg: fmt.Sprintf("%q already exists in the protected header", elm.Key)}
